@@ -55,7 +55,10 @@ class Repartition(Expr):
             or self.partition_size is not None
         ):
             x = self.optimize(fuse=False)
-            return x._divisions()
+            # not ``x._divisions()``: when the optimized expression carries a
+            # partition selection (``PartitionsFiltered``) only its ``divisions``
+            # property describes the selected partitions
+            return x.divisions
         return self.new_divisions
 
     @property
